@@ -3,6 +3,7 @@
    geometries, as entry codes (0 = F, k+1 = dimension k). *)
 From Coq Require Import QArith ZArith List Bool.
 From SF Require Import Base.GeomAST Base.QKernel Base.Planar Model.Relate Model.Empty.
+From SF Require Model.Envelope Model.Measure.
 Import ListNotations.
 
 Definition zq_vtx (v : vtx Z) : vtx Q := Build_vtx (inject_Z (vx v)) (inject_Z (vy v)) (inject_Z (vz v)) (inject_Z (vm v)).
@@ -28,3 +29,12 @@ Definition relate_empty_codes (a b : geomT Z) : list nat :=
 (* the same with the pinned code's Dimension() (counts empty members) *)
 Definition relate_empty_codes_unfixed (a b : geomT Z) : list nat :=
   map dim_code (matrix_list (relate_empty_branch Relate.dimension (zq_geom a) (zq_geom b))).
+
+(* Envelope (Model/Envelope.v) and twice the area (Model/Measure.v) of a lattice geometry, for the
+   comparison with the implementation on geometries with inserted empty members *)
+Definition env_z (g : geomT Z) : option (Z * Z * (Z * Z)) :=
+  match Envelope.env_of Envelope.ZO g with
+  | None => None
+  | Some b => Some (Envelope.minx b, Envelope.miny b, (Envelope.maxx b, Envelope.maxy b))
+  end.
+Definition area2_q (g : geomT Z) : Q := Qred (2 * Measure.geom_area false None (zq_geom g)).
